@@ -256,6 +256,10 @@ def main():
             "ran": "tools/seed_matrix.sh -> mutants/selftest.sh --patch <patch.diff> <all 18 IDs> (quick tier, scratch worktree + scratch copy of the harness)",
         }
         if matrix and "caught" in matrix:
+            ran = sorted(matrix["caught"] + matrix["missed"] + [c.split("(")[0] for c in matrix["other"]])
+            meta["quick_checks_run_against_it"] = ran
+            if len(ran) < 18:
+                meta["ran"] = "tools/seed_matrix.sh with SEED_MATRIX_IDS = its own check and the checks most likely to be affected (time budget; the purity of the other checks was measured on the 91 earlier seeds) -> mutants/selftest.sh --patch <patch.diff> <IDs> (quick tier, scratch worktree + scratch copy of the harness)"
             meta["caught_by_quick_checks"] = matrix["caught"]
             meta["target_check_catches_it"] = prop in matrix["caught"]
             meta["other_exit_codes"] = matrix["other"]
